@@ -5,7 +5,7 @@ NOT_APPLICABLE = {}
 
 CHECKS = {
  "C01": {
-  "bins": ["conn", "cors"], "tokio_bins": ["conn", "cors"], "specs": ["conn", "cors"],
+  "bins": ["conn", "cors"], "tokio_bins": ["conn", "cors"], "specs": ["conn", "cors", "tls"],
   "level": "model_checking",
   "technique": "TLA+ model of the per-connection loop (HttpConn) checked by TLC over all scripts x all segmentations incl. liveness; TLC-generated scripts and send sequences replayed over loopback on both runtimes; every recorded client log trace-validated by TLC",
   "text": "TLC explores the connection machine (first byte, buffered head/body reads with read-ahead, dispatch, write, next-or-close, timeout, panic) against the declarative Expected(script) for all scripts <=2 (thorough <=3) over the loop-relevant catalogue and the method x target x Connection x version product, every split/coalescing of the byte stream, with safety and liveness; each real connection (threaded and tokio App on loopback, segmentations chosen by TLC simulation plus byte-exact extremes) is logged at the client and accepted only if TLC finds a behaviour of the spec that explains the whole log; the server's own monitor events for the connection must equal MonExpected. The matched route's CORS headers: TLC explores every order of App/SubApp/Cors builder calls (spec/cors), and for every generated builder history and GET/POST/OPTIONS request the status and Access-Control-* headers of real Apps on both runtimes must equal the expectation computed from the call history (unmatched routes get none; handler-set headers are not overridden or duplicated).",
